@@ -1,15 +1,54 @@
 // Unit wrapper: real PGMIndex constructor + search.  No logic beyond marshalling and try/catch -> return code.
+//   out[0..2] = pos, lo, hi   out[3] = segments_count()   out[4] = height()
+//   out[5]    = largest routing deviation recorded by the segment_for_key hook during this search (C07)
+//   out[6]    = 1 iff the index object (n, first_key, every segment, every level offset) is bit-identical before and after
+//               search() and a second search() returns the same triple (C16 frame condition / determinism)
 #ifdef VERIF_MODEL
 #include "verif_std.hpp"
 #endif
 #include "pgm/pgm_index.hpp"
 #include <cstdint>
 #include <cstddef>
+#include <cstring>
+
+using Idx = pgm::PGMIndex<KEY, EPS, EPSREC, FLT>;
+struct IdxA : Idx {
+    using Idx::Idx; using Idx::n; using Idx::first_key; using Idx::segments; using Idx::levels_offsets;
+    size_t nseg() const { return segments.size(); }
+    const unsigned char *segbytes() const { return reinterpret_cast<const unsigned char *>(segments.data()); }
+    size_t segsize() const { return segments.size() * sizeof(segments[0]); }
+};
+#ifndef SNAP_MAX
+#define SNAP_MAX 256
+#endif
+
 extern "C" __attribute__((noinline)) int u_pgm_e2e(const KEY *d, size_t n, const KEY *q, size_t *out) {
     try {
-        pgm::PGMIndex<KEY, EPS, EPSREC, FLT> idx(d, d + n);
+        IdxA idx(d, d + n);
+#ifdef WITH_FRAME
+        unsigned char snap[SNAP_MAX]; size_t offs[16];
+        size_t sb = idx.segsize(), nl = idx.levels_offsets.size();
+        size_t n0 = idx.n; KEY fk0 = idx.first_key;
+        if (sb > SNAP_MAX || nl > 16) return 8;
+        for (size_t i = 0; i < sb; ++i) snap[i] = idx.segbytes()[i];
+        for (size_t i = 0; i < nl; ++i) offs[i] = idx.levels_offsets[i];
+#endif
+#ifdef PGM_INDEX_VERIF
+        pgm::pgm_verif_max_route_dev = 0;
+#endif
         auto r = idx.search(*q);
         out[0] = r.pos; out[1] = r.lo; out[2] = r.hi; out[3] = idx.segments_count(); out[4] = idx.height();
+#ifdef PGM_INDEX_VERIF
+        out[5] = pgm::pgm_verif_max_route_dev;
+#endif
+#ifdef WITH_FRAME
+        auto r2 = idx.search(*q);
+        bool same = r2.pos == r.pos && r2.lo == r.lo && r2.hi == r.hi && idx.n == n0 && idx.first_key == fk0
+                    && idx.segsize() == sb && idx.levels_offsets.size() == nl;
+        for (size_t i = 0; i < sb && same; ++i) same = snap[i] == idx.segbytes()[i];
+        for (size_t i = 0; i < nl && same; ++i) same = offs[i] == idx.levels_offsets[i];
+        out[6] = same;
+#endif
         return 0;
     } catch (const std::invalid_argument &) { return 1; }
       catch (const std::logic_error &) { return 2; }
